@@ -7,7 +7,8 @@
 //! silent hops, losses, failed sends, several responders per hop) are applied to a real `Tracer` built by the real
 //! `Builder`; every generator is run on it with standard output redirected to a scratch file, and its rows are compared
 //! with `State::hops()` (which C10's theorems and the `agg` component are about) and with what was probed.
-//! Oracles: `c10-report-rows`, `c10-report-fails`.  No model is involved (one `conc noop` request).
+//! Oracles: `c10-report-rows`, `c10-report-fails`, `c05-report-stats` (same hops, other addresses or counts: not the
+//! statistics of all published rounds).  No model is involved (one `conc noop` request).
 use crate::agg::{gen_net, net_round, TARGET};
 use crate::strategy::addr_of;
 use crate::util::{guarded, Rng, Run};
@@ -147,7 +148,9 @@ fn case(run: &mut Run, rng: &mut Rng, dns: &DnsResolver) {
         let got = parser(&text);
         if got != want {
             let k = got.iter().zip(&want).position(|(a, b)| a != b).unwrap_or(got.len().min(want.len()));
-            run.fail("c10-report-rows", format!("{kind} report, {ctx}: {} rows for {} hops; first difference at row {k}: report {:?}, hop table {:?}",
+            // the same hops with other counts: the statistics are not those of all published rounds (C05)
+            let same_hops = got.len() == want.len() && got.iter().zip(&want).all(|(a, b)| a.ttl == b.ttl);
+            run.fail(if same_hops { "c05-report-stats" } else { "c10-report-rows" }, format!("{kind} report, {ctx}: {} rows for {} hops; first difference at row {k}: report {:?}, hop table {:?}",
                 got.len(), want.len(), got.get(k), want.get(k)));
             continue;
         }
